@@ -38,7 +38,7 @@ SPECS["C09"] = ("""property C09: at most one event per replaceable address; newe
    Theorems about the abstract store ADb.v for ALL histories (induction over operation lists).
    addr_of e = (kind, author, "") for kinds 0, 3, 10000-19999; (kind, author, d) for kinds
    30000-39999 with a d tag; equality of addresses is equality of all bytes and of the length.""",
-  DBIMP + "\nFrom Pocket Require Import DbIdInv DbIndexInv KeyOrder DbAddr.", [
+  DBIMP + "\nFrom Pocket Require Import DbIdInv DbIndexInv KeyOrder DbAddr.\nFrom Pocket Require DbCovered.", [
   ("C09_at_most_one",
    "forall ops names e1 e2 a, let st := a_run ops (a_init names) in\n    In e1 (live st) -> In e2 (live st) -> addr_of e1 = Some a -> addr_of e2 = Some a -> e1 = e2",
    "at_most_one_per_address", "every reachable state, every address"),
@@ -54,6 +54,9 @@ SPECS["C09"] = ("""property C09: at most one event per replaceable address; newe
   ("C09_addresses_independent",
    "forall st e st' x, a_store st e = (st', Ok tt) -> e_kind e <> 5 -> In x (live st) -> addr_of x <> addr_of e -> In x (live st')",
    "other_addresses_untouched", "holders of any other address (any byte or the length of d, author, kind) and non-replaceable events survive"),
+  ("C09_concrete_stored_event_is_sole_holder",
+   "forall ops names e s' off x, ops_wfe ops -> wf_ev e -> let s := c_run ops (db_init names) in\n    store_event s e = (s', Ok off) -> is_ephemeral (e_kind e) = false -> e_kind e <> 5 ->\n    get_event_by_id s' (e_id x) = Ok (Some x) -> same_address x e -> x = e",
+   "DbCovered.stored_event_is_sole_holder", "NEWER WINS on the concrete store: after a successful store the stored event is the only retrievable event of its address - whatever held the address before has been replaced"),
   ("C09_at_most_one_concrete",
    "forall ops names e1 e2, ops_wfe ops -> let s := c_run ops (db_init names) in\n    get_event_by_id s (e_id e1) = Ok (Some e1) -> get_event_by_id s (e_id e2) = Ok (Some e2) ->\n    same_address e1 e2 -> e1 = e2",
    "at_most_one_per_address_concrete", "the CONCRETE store (index tables, padded/truncated keys, range scans in memcmp order), every reachable state: same author + same replaceable kind, or same author + same parameterized kind + same d (every byte and the length) => the same event"),
@@ -135,6 +138,9 @@ SPECS["C11"] = ("""property C11: accepted deletions are permanent; deletion time
   ("C11_concrete_no_retrievable_event_is_covered",
    "forall ops names x a t, ops_wfe ops -> let s := c_run ops (db_init names) in\n    get_event_by_id s (e_id x) = Ok (Some x) -> addr_of x = Some a -> naddr_is_deleted_asof s a = Some t -> t < e_created x",
    "no_retrievable_event_is_covered", "the CONCRETE store, every reachable state: an event the id lookup returns whose address carries a deletion time is strictly newer than that time"),
+  ("C11_concrete_no_retrievable_event_is_marked_deleted",
+   "forall ops names x, ops_wfe ops -> let s := c_run ops (db_init names) in\n    get_event_by_id s (e_id x) = Ok (Some x) -> event_is_deleted s (e_id x) = true -> self_naming x",
+   "no_retrievable_event_is_marked_deleted", "the CONCRETE store, every reachable state: an event the id lookup returns carries no deleted-id marker - the only exception being a deletion request that names its own id (impossible for a correctly hashed event; the boundary stated above). With deleted_id_refused_forever: a named id, once the request is accepted, is unretrievable and refused in every continuation"),
   ("C11_concrete_address_deletion_permanent",
    "forall ops names ops' x a t, ops_wfe ops -> ops_wfe ops' ->\n    let s := c_run ops (db_init names) in let s' := c_run ops' s in\n    naddr_is_deleted_asof s a = Some t -> addr_of x = Some a -> e_created x <= t ->\n    get_event_by_id s' (e_id x) <> Ok (Some x)",
    "address_deletion_permanent", "once an address carries deletion time t, in EVERY continuation (stores, further requests in any timestamp order, removals, vanish, reopen) no event of that address created at or before t is retrievable"),
